@@ -269,3 +269,59 @@ func init() {
 		return Result{Lean: sb.String(), Summary: summary}, nil
 	})
 }
+
+// ModelValidation: statement skeletons of model validation (typesystem.NewAndValidate and everything it calls), of the
+// model write command, of the latest-model resolver and of the model functions of the caching wrapper and the memory /
+// sql backends (C17).
+func init() {
+	register("ModelValidation", func(repo string) (Result, error) {
+		type fn struct{ rel, recv, name string }
+		fns := []fn{
+			{"pkg/typesystem/typesystem.go", "", "NewAndValidate"},
+			{"pkg/typesystem/typesystem.go", "TypeSystem", "validateRelation"},
+			{"pkg/typesystem/typesystem.go", "", "containsDuplicateType"},
+			{"pkg/typesystem/typesystem.go", "TypeSystem", "validateNames"},
+			{"pkg/typesystem/typesystem.go", "TypeSystem", "isUsersetRewriteValid"},
+			{"pkg/typesystem/typesystem.go", "TypeSystem", "validateTypeRestrictions"},
+			{"pkg/typesystem/typesystem.go", "", "hasEntrypoints"},
+			{"pkg/typesystem/typesystem.go", "TypeSystem", "hasCycle"},
+			{"pkg/typesystem/typesystem.go", "TypeSystem", "HasCycle"},
+			{"pkg/typesystem/typesystem.go", "TypeSystem", "validateConditions"},
+			{"pkg/typesystem/typesystem.go", "TypeSystem", "IsDirectlyAssignable"},
+			{"pkg/typesystem/typesystem.go", "", "RewriteContainsSelf"},
+			{"pkg/typesystem/typesystem.go", "", "WalkUsersetRewrite"},
+			{"pkg/typesystem/typesystem.go", "", "flattenUserset"},
+			{"pkg/server/commands/write_authzmodel.go", "WriteAuthorizationModelCommand", "Execute"},
+			{"pkg/typesystem/resolver.go", "", "MemoizedTypesystemResolverFunc"},
+			{"pkg/storage/storagewrappers/model_caching.go", "cachedOpenFGADatastore", "ReadAuthorizationModel"},
+			{"pkg/storage/storagewrappers/model_caching.go", "cachedOpenFGADatastore", "FindLatestAuthorizationModel"},
+			{"pkg/storage/storagewrappers/model_caching.go", "", "ModelCacheKey"},
+			{"pkg/storage/memory/memory.go", "", "findAuthorizationModelByID"},
+			{"pkg/storage/memory/memory.go", "MemoryBackend", "ReadAuthorizationModel"},
+			{"pkg/storage/memory/memory.go", "MemoryBackend", "FindLatestAuthorizationModel"},
+			{"pkg/storage/memory/memory.go", "MemoryBackend", "WriteAuthorizationModel"},
+			{"pkg/storage/sqlcommon/sqlcommon.go", "", "FindLatestAuthorizationModel"},
+			{"pkg/storage/sqlcommon/sqlcommon.go", "", "ReadAuthorizationModel"},
+		}
+		var sb strings.Builder
+		sb.WriteString(genHeader)
+		sb.WriteString("namespace OpenFGAVerif.Gen.ModelValidation\n\n")
+		summary := map[string]interface{}{}
+		seen := map[string]int{}
+		for _, f := range fns {
+			sk, err := valSkeletonOf(repo, f.rel, f.recv, f.name)
+			if err != nil {
+				return Result{}, err
+			}
+			id := valLeanIdent(f.recv, f.name)
+			if strings.Contains(f.rel, "sqlcommon") {
+				id = "sql_" + f.name
+			}
+			seen[id]++
+			fmt.Fprintf(&sb, "/-- statement skeleton of `%s` (%s) -/\ndef %s : List String := %s\n\n", f.name, f.rel, id, leanStrList(sk))
+			summary[id] = len(sk)
+		}
+		sb.WriteString("end OpenFGAVerif.Gen.ModelValidation\n")
+		return Result{Lean: sb.String(), Summary: summary}, nil
+	})
+}
